@@ -58,7 +58,7 @@ REPRS += [(('csr', 'nz', 'sort_rev'), ('csr', 'z1', 'filter_all')),
           (('csr_unsorted', 'z1', 'nnz'), ('csc', 'zall', 'nnz')),
           (('csr', 'zall', 'filter_all'), ('csr', 'nz', 'transpose2'))]
 ALL_REPRS = [((l, z, 'none'), (l2, z2, 'none')) for (l, z) in _LZ for (l2, z2) in _LZ] + REPRS[len(_LZ):]
-ID_KINDS = ('plain', 'punct', 'nonascii', 'long', 'numeric')
+ID_KINDS = ('plain', 'punct', 'nonascii', 'long', 'numeric', 'natlex')
 
 
 def custom_f(a, b):
